@@ -184,7 +184,13 @@ func propC10(c *Ctx) {
 		if marks == 0 {
 			c.Bad(q4, FuncName(fn)+"/no-flag", c.P.Pos(fn.Pos()), "Bind no longer records the reservation in isPortReserved (Close relies on it to release)")
 		}
-		norm := func(s string) string { return strings.NewReplacer("^", "", "&", "").Replace(s) }
+		norm := func(s string) string {
+			s = strings.NewReplacer("^", "", "&", "").Replace(s)
+			for _, v := range []string{"@1", "@2", "@3", "@4", "@u"} {
+				s = strings.ReplaceAll(s, v, "")
+			}
+			return s
+		}
 		for _, cl := range fn.AnonFuncs {
 			for _, rel := range c.Calls(cl, release, false) {
 				c.Guarded(q4, "release-on-error", rel, AtomIs(false, func(s string) bool { return strings.HasSuffix(s, "== nil)") }), "err != nil at function exit")
